@@ -118,13 +118,10 @@ theorem tie_branch (F : FeatOracle α) (isMin : Bool) (fa fb : List (Feat α)) (
   · exact Or.inl (h ▸ ha p h1)
   · exact Or.inr (h ▸ hb q h2)
 
-theorem raw_branch (O : DOps α) (F : FeatOracle α) (cv : Bool) (N simd : Nat) (S : FeatScratch α)
+theorem raw_branch (O : DOps α) (F : FeatOracle α) (cv : Bool) (N simd cs : Nat)
     (c : Clause) (v : Nat → α) (f : Nat → List (Feat α)) (P : Nat → V3 α → Prop)
-    (hf : ∀ k, ∀ x ∈ f k, P k x.deriv)
-    (hcnt : c.op ≠ Op.min → c.op ≠ Op.max → c.op.args = some 2 →
-      ∀ i, i < (pairs (f c.a) (f c.b)).length → i % N < S.countSimd)
-    (hsq : c.op = Op.sqrt → ∀ lane, S.staleV c.id lane = v c.id) :
-    ∀ x ∈ (featClauseRaw O F cv N simd S c v f).1, clauseSpec O cv v c P x.deriv := by
+    (hf : ∀ k, ∀ x ∈ f k, P k x.deriv) :
+    ∀ x ∈ (featClauseRaw O F cv N simd cs c v f).1, clauseSpec O cv v c P x.deriv := by
   intro x hx
   unfold featClauseRaw at hx
   unfold clauseSpec
@@ -146,7 +143,7 @@ theorem raw_branch (O : DOps α) (F : FeatOracle α) (cv : Bool) (N simd : Nat) 
         by_cases h2 : O.lt (v c.b) (v c.a) = true
         · simp only [h2, if_true] at hx ⊢
           exact hf _ _ hx
-        · simp only [h2, if_false] at hx ⊢
+        · simp only [h2] at hx ⊢
           exact tie_branch F true (f c.a) (f c.b) (P c.a) (P c.b) (hf _) (hf _) x hx
   · simp only [hmin, if_false] at hx ⊢
     by_cases hmax : c.op = Op.max
@@ -166,44 +163,32 @@ theorem raw_branch (O : DOps α) (F : FeatOracle α) (cv : Bool) (N simd : Nat) 
           by_cases h2 : O.lt (v c.b) (v c.a) = true
           · simp only [h2, if_true] at hx ⊢
             exact hf _ _ hx
-          · simp only [h2, if_false] at hx ⊢
+          · simp only [h2] at hx ⊢
             exact tie_branch F false (f c.a) (f c.b) (P c.a) (P c.b) (hf _) (hf _) x hx
     · simp only [hmax, if_false] at hx ⊢
       by_cases ha1 : c.op.args = some 1
       · simp only [ha1, if_true] at hx ⊢
         unfold featUnary at hx
         simp only [List.mem_map] at hx
-        obtain ⟨⟨i, f0⟩, hmem, rfl⟩ := hx
-        have hf0 : f0 ∈ f c.a := (List.of_mem_zip hmem).2
-        refine ⟨f0.deriv, hf _ _ hf0, ?_⟩
-        simp only
-        by_cases hs : c.op = Op.sqrt
-        · have := hsq hs (i % N)
-          simp only [this, ite_self]
-        · exact dk3_ov O cv c.op hs _ _ _ _ _ _
+        obtain ⟨f0, hf0, rfl⟩ := hx
+        exact ⟨f0.deriv, hf _ _ hf0, rfl⟩
       · simp only [ha1, if_false] at hx ⊢
         by_cases ha2 : c.op.args = some 2
         · simp only [ha2, if_true] at hx
           unfold featBinary at hx
           simp only [List.mem_map] at hx
-          obtain ⟨⟨i, ⟨f0, g0⟩⟩, hmem, rfl⟩ := hx
-          obtain ⟨hi, hp⟩ := List.of_mem_zip hmem
+          obtain ⟨⟨f0, g0⟩, hp, rfl⟩ := hx
           obtain ⟨h1, h2⟩ := mem_pairs _ _ f0 g0 hp
-          have hlane := hcnt hmin hmax ha2 i (by simpa using hi)
-          refine ⟨f0.deriv, g0.deriv, hf _ _ h1, hf _ _ h2, ?_⟩
-          simp only [hlane, if_true]
+          exact ⟨f0.deriv, g0.deriv, hf _ _ h1, hf _ _ h2, rfl⟩
         · simp only [ha2, if_false] at hx
           simp at hx
 
 theorem featList_branch (O : DOps α) (F : FeatOracle α) (dedup : List (Feat α) → List (Feat α))
     (hdedup : ∀ l, ∀ g ∈ dedup l, ∃ f ∈ l, g.deriv = f.deriv)
-    (cv : Bool) (N simd : Nat) (staleD : Nat → Nat → V3 α) (staleV : Nat → Nat → α) (v : Nat → α)
+    (cv : Bool) (N simd : Nat) (v : Nat → α)
     (seed : Nat → V3 α) (t : List Clause) (st : FeatState α)
-    (hinit : ∀ k, ∀ f ∈ st.f k, f.deriv = seed k)
-    (_hN : 0 < N)
-    (H1 : FeatCountsOK O F dedup cv N simd staleD staleV v t st)
-    (H2 : ∀ c ∈ t, c.op = Op.sqrt → ∀ lane, staleV c.id lane = v c.id) :
-    ∀ k, ∀ f ∈ (featList O F dedup cv N simd staleD staleV v t st).f k,
+    (hinit : ∀ k, ∀ f ∈ st.f k, f.deriv = seed k) :
+    ∀ k, ∀ f ∈ (featList O F dedup cv N simd v t st).f k,
       BranchSet O cv v seed t k f.deriv := by
   induction t with
   | nil =>
@@ -212,8 +197,6 @@ theorem featList_branch (O : DOps α) (F : FeatOracle α) (dedup : List (Feat α
     simp only [BranchSet]
     exact hinit k f hf
   | cons c rest ih =>
-    obtain ⟨H1r, H1c⟩ := H1
-    have IH := ih H1r (fun d hd => H2 d (List.mem_cons_of_mem _ hd))
     intro k f hf
     simp only [featList] at hf
     by_cases hk : k = c.id
@@ -221,10 +204,66 @@ theorem featList_branch (O : DOps α) (F : FeatOracle α) (dedup : List (Feat α
       simp only [upd_same] at hf
       obtain ⟨f0, hf0, hd⟩ := hdedup _ f hf
       rw [branchSet_cons_self, hd]
-      exact raw_branch O F cv N simd _ c v _ (BranchSet O cv v seed rest) IH H1c
-        (H2 c (List.mem_cons_self ..)) f0 hf0
+      exact raw_branch O F cv N simd _ c v _ (BranchSet O cv v seed rest) ih f0 hf0
     · simp only [upd_other _ _ _ _ hk] at hf
       rw [branchSet_cons_other _ _ _ _ _ _ _ hk]
-      exact IH k f hf
+      exact ih k f hf
+
+/-- one clause of the feature walk reads the value array only at its operands and output, and the
+    feature lists only at its operands (it reads no other scratch at all) -/
+theorem featClauseRaw_congr (O : DOps α) (F : FeatOracle α) (cv : Bool) (N simd cs : Nat)
+    (c : Clause) (v v' : Nat → α) (f f' : Nat → List (Feat α))
+    (hva : v c.a = v' c.a) (hvb : v c.b = v' c.b) (hvi : v c.id = v' c.id)
+    (hfa : f c.a = f' c.a) (hfb : f c.b = f' c.b) :
+    featClauseRaw O F cv N simd cs c v f = featClauseRaw O F cv N simd cs c v' f' := by
+  unfold featClauseRaw featUnary featBinary
+  simp only [hva, hvb, hvi, hfa, hfb]
+
+/-- The feature walk reads the value array at the operands / outputs of the tape's clauses and
+    the initial feature lists at unbanned non-clause slots only; `count_simd` is never read. -/
+theorem featList_congr (O : DOps α) (F : FeatOracle α) (dedup : List (Feat α) → List (Feat α))
+    (cv : Bool) (N simd : Nat) :
+    ∀ (T : List Clause) (B : Nat → Prop), WF T → (∀ c ∈ T, c.op ≠ Op.oracle) →
+      (∀ c ∈ T, ¬ B c.a ∧ ¬ B c.b) →
+      ∀ (v v' : Nat → α) (st st' : FeatState α),
+      (∀ c ∈ T, v c.a = v' c.a ∧ v c.b = v' c.b ∧ v c.id = v' c.id) →
+      (∀ k, k ∉ ids T → ¬ B k → st.f k = st'.f k) → st.countSimd = st'.countSimd →
+      (∀ k, ¬ B k → (featList O F dedup cv N simd v T st).f k = (featList O F dedup cv N simd v' T st').f k) ∧
+      (featList O F dedup cv N simd v T st).countSimd = (featList O F dedup cv N simd v' T st').countSimd := by
+  intro T
+  induction T with
+  | nil => intro B _ _ _ v v' st st' _ h hcs; exact ⟨fun k hk => h k (by simp [ids]) hk, hcs⟩
+  | cons c rest ih =>
+    intro B hwf hno hban v v' st st' hV hf hcs
+    obtain ⟨_, hnotin, hself, hlater, hwf'⟩ := hwf
+    have hcop := hno c (List.mem_cons_self ..)
+    obtain ⟨hca, hcb⟩ := hself hcop
+    obtain ⟨IH, IHcs⟩ := ih (fun j => B j ∨ j = c.id) hwf' (fun e he => hno e (List.mem_cons_of_mem _ he))
+      (by
+        intro e he
+        obtain ⟨b1, b2⟩ := hban e (List.mem_cons_of_mem _ he)
+        obtain ⟨h1, h2⟩ := hlater e he (hno e (List.mem_cons_of_mem _ he))
+        exact ⟨fun h => h.elim b1 h1, fun h => h.elim b2 h2⟩)
+      v v' st st' (fun e he => hV e (List.mem_cons_of_mem _ he))
+      (by
+        intro j hj hB
+        refine hf j ?_ (fun h => hB (Or.inl h))
+        intro hmem
+        rcases List.mem_cons.mp hmem with h | h
+        · exact hB (Or.inr h)
+        · exact hj h) hcs
+    obtain ⟨b1, b2⟩ := hban c (List.mem_cons_self ..)
+    obtain ⟨v1, v2, v3⟩ := hV c (List.mem_cons_self ..)
+    have hraw := featClauseRaw_congr O F cv N simd (featList O F dedup cv N simd v rest st).countSimd c v v'
+      (featList O F dedup cv N simd v rest st).f (featList O F dedup cv N simd v' rest st').f v1 v2 v3
+      (IH c.a (fun h => h.elim b1 hca)) (IH c.b (fun h => h.elim b2 hcb))
+    simp only [featList]
+    rw [hraw, IHcs]
+    refine ⟨?_, rfl⟩
+    intro k hk
+    by_cases hkc : k = c.id
+    · subst hkc; simp only [upd_same]
+    · simp only [upd_other _ _ _ _ hkc]
+      exact IH k (fun h => h.elim hk hkc)
 
 end Libfive.FeatureProofs
